@@ -21,7 +21,11 @@ use serde::{Deserialize, Serialize};
 pub mod panics;
 pub mod workers;
 
-pub const VERIF_ROOT: &str = "/verif";
+/// Root of the verification tree (evidence/, replays/, known_findings.json). `/verif` unless
+/// `VCHECK_ROOT` is set (used by private development copies only).
+pub fn verif_root() -> PathBuf {
+    std::env::var_os("VCHECK_ROOT").map(PathBuf::from).unwrap_or_else(|| PathBuf::from("/verif"))
+}
 
 #[derive(Clone, Copy, PartialEq, Eq, Debug)]
 pub enum Tier {
@@ -122,7 +126,7 @@ pub struct ReplayFile {
 }
 
 pub fn load_known_findings() -> Vec<KnownFinding> {
-    let p = Path::new(VERIF_ROOT).join("known_findings.json");
+    let p = verif_root().join("known_findings.json");
     match std::fs::read_to_string(&p) {
         Ok(s) => match serde_json::from_str::<Vec<KnownFinding>>(&s) {
             Ok(v) => v,
@@ -699,7 +703,7 @@ where
 }
 
 pub fn write_replay<C: Serialize>(prop: &str, sub: &str, case: &C, tag: &str, note: Option<&str>) -> PathBuf {
-    let dir = Path::new(VERIF_ROOT).join("replays").join("found");
+    let dir = verif_root().join("replays").join("found");
     let _ = std::fs::create_dir_all(&dir);
     let path = dir.join(format!("{prop}-{sub}-{tag}.json"));
     let rf = ReplayFile {
@@ -783,7 +787,7 @@ pub fn drive(
     let mut replayed = 0u64;
     for k in &known {
         let Some(rp) = &k.replay else { continue };
-        let path = Path::new(VERIF_ROOT).join(rp);
+        let path = verif_root().join(rp);
         let text = match std::fs::read_to_string(&path) {
             Ok(t) => t,
             Err(e) => {
@@ -879,7 +883,7 @@ pub fn drive(
         "wall_s": t0.elapsed().as_secs_f64(),
         "violations": violations,
     });
-    let evdir = Path::new(VERIF_ROOT).join("evidence");
+    let evdir = verif_root().join("evidence");
     let _ = std::fs::create_dir_all(&evdir);
     if run.only_sub.is_none() && (scale - 1.0).abs() < f64::EPSILON {
         if let Err(e) = std::fs::write(evdir.join(format!("{prop}.json")), serde_json::to_string_pretty(&evidence).unwrap()) {
